@@ -263,11 +263,22 @@ func c10runJob(j c10job) (out c10out) {
 	}
 	var wg sync.WaitGroup
 	var pan atomic.Value
+	var othersLeft, pollersLeft int32
+	for _, n := range j.Methods {
+		if n == "PollEvent" {
+			pollersLeft++
+		} else {
+			othersLeft++
+		}
+	}
 	for _, n := range j.Methods {
 		m := ms[n]
 		wg.Add(1)
 		go func() {
 			defer wg.Done()
+			if m.name != "PollEvent" {
+				defer atomic.AddInt32(&othersLeft, -1)
+			}
 			defer func() {
 				if e := recover(); e != nil {
 					pan.Store(fmt.Sprintf("%s panicked: %v", m.name, e))
@@ -281,6 +292,18 @@ func c10runJob(j c10job) (out c10out) {
 			}
 			for i := 0; i < n; i++ {
 				m.f(s, i)
+			}
+			if m.name == "PollEvent" {
+				// the application under test keeps consuming events until its other goroutines
+				// are done (a SimulationScreen holds Show/SetSize back while its queue is full)
+				atomic.AddInt32(&pollersLeft, -1)
+				for atomic.LoadInt32(&othersLeft) > 0 {
+					if s.HasPendingEvent() {
+						s.PollEvent()
+					} else {
+						runtime.Gosched()
+					}
+				}
 			}
 		}()
 	}
